@@ -4,7 +4,6 @@ import (
 	"github.com/jhalter/mobius/hotline"
 )
 
-func c08U32(b []byte) int { return int(b[0])<<24 | int(b[1])<<16 | int(b[2])<<8 | int(b[3]) }
 
 // The download reply announces the remaining data length as the file size and, for a file without a stored
 // resource fork, header + remaining data as the transfer size; a preview request gets the bare data size.
